@@ -627,6 +627,8 @@ def configs(tier, seed):
                         continue
                     if not full and not crop and img[0] != img[1] and calib == (0, 0):
                         continue        # > 100 paths (clip thresholds of the non-square radius x 12 free mask entries)
+                    if not crop and img[0] != img[1] and img[0] * img[1] > 12:
+                        continue        # non-square grids beyond 12 entries without cropping: > 300 paths, > 30 min
                     out.append({"id": "outer:%s:calib=%s:crop=%s:seed=%s" % (img, list(calib), crop, sd), "h": "outer", "img": img, "calib": list(calib),
                                 "crop": crop, "seed": sd, "max_paths": 2000, "cost": img[0] * img[1]})
     # a large calibration block whose corners lie outside the plain inscribed ellipse of the grid: they must survive corner cropping
